@@ -11,13 +11,17 @@ from ..core import Broken, Ctx, Violation
 PROP_FILE = "Properties/C11.v"
 
 TRUSTED = [
-    "translator/c11.py (comparisons of _check_out_fit_ranges / FitRange2D.check / FitRange3D.check and the dispatch of "
-    "check_fit_ranges -> Gen_C11.src_checker; fails closed on any other shape)",
+    "translator/c11.py (fails closed on any other shape): comparisons of _check_out_fit_ranges / FitRange2D.check / "
+    "FitRange3D.check incl. the helpers _bounds/_length and the dispatch order of check_fit_ranges -> Gen_C11.src_checker; "
+    "which sizes ModelFittingDataTree.__init__ passes as rows/cols/readout_times at its two call sites -> src_calls; where "
+    "_configure_weights is called, the shape a scalar weight is expanded to, and whether targets/weights are indexed "
+    "through _target_indexers -> src_weights",
     "correspondence harness: harness/props/c11.py generators (incl. the independent integer computation of the probe's "
-    "simulated frames), harness/drivers/c11.py, probes/verif_probes_c11.py, float.as_integer_ratio() -> Q literals",
+    "simulated frames; the Python mirror of the range verdict only steers the generator and names classes), "
+    "harness/drivers/c11.py, probes/verif_probes_c11.py, float.as_integer_ratio() -> Q literals",
     "modelled, not verified: numpy/numba elementwise float64 arithmetic is exact on the generated small integers and "
-    "dyadics, np.nansum skips NaN, xarray isel = Python slicing, numpy broadcasting of (1, y, x) against (y, x); pygmo "
-    "champion tracking (champion = best individual ever inserted) is a model, observed on real runs only",
+    "dyadics, np.nansum skips NaN, xarray isel = Python slicing (clipping), numpy broadcasting of (1, y, x) against (y, x); "
+    "pygmo champion tracking (champion = best individual ever inserted) is a model, observed on real runs only",
 ]
 
 # ------------------------------------------------------------------------------------------ Coq literals
@@ -172,7 +176,7 @@ def classify_ck(c, o):
         cls = "starts_differ" if starts_differ else "same_starts"
     else:
         cls = "absent_stop" if absent_stop else ("starts_differ" if starts_differ else "same_starts")
-    return clause, dict(clause=clause, cls=cls, impl=o["o"])
+    return clause, dict(clause=clause, cls=cls)
 
 
 def ck_size(c):
@@ -267,88 +271,341 @@ def sub_range(r, n):
     return (a, r.randrange(a + 1, n + 1))
 
 
+# ---- Python mirror of Model.Fitness.fit_verdict.  It is used ONLY to steer the generator (keep known-defect classes
+# apart, never bypass the checker on a configuration that has to be refused) and to NAME the input class of a case
+# that Coq has already judged; the judgement itself (fit_violations) is evaluated inside Coq.
+
+def _resolve(s, n):
+    return (0 if s[0] is None else s[0], n if s[1] is None else s[1])
+
+
+def dim_verdict(nt, nd, t, o):
+    ts, te = _resolve(t, nt)
+    os_, oe = _resolve(o, nd)
+    if not (0 <= ts <= te <= nt):
+        return "reject", "target_exceeded"
+    if oe <= nd:
+        if te - ts == oe - os_:
+            return "accept", None
+        return "reject", "extent"
+    if te - ts == min(oe, nd) - min(os_, nd):
+        return "dontcare", None
+    return "reject", "result_beyond_frame"
+
+
+def tshape_of(c):
+    t = c["targets"][0]
+    return (len(t), len(t[0]), len(t[0][0]))
+
+
+def dshape_of(c):
+    return (c["steps"] if c["multi"] else 1, len(c["pattern"]), len(c["pattern"][0]))
+
+
+def case_dims(c):
+    """[(dim, nt, nd, target slice, result slice)] of the dimensions the specification compares"""
+    (tt, ty, tx), (dt, dy, dx) = tshape_of(c), dshape_of(c)
+    trng, orng = c["trng"], c["orng"]
+    tm = tuple(trng["time"]) if trng["d"] == 3 else (None, None)
+    return [("time", tt, dt, tm, tuple(orng["time"])), ("row", ty, dy, tuple(trng["row"]), tuple(orng["row"])),
+            ("col", tx, dx, tuple(trng["col"]), tuple(orng["col"]))]
+
+
+def py_verdict(c):
+    """-> (verdict, class): class names why a configuration has to be refused, or how accepted ranges relate"""
+    if c["trng"]["d"] == 3 and not c["multi"]:
+        return "dontcare", None
+    dims = case_dims(c)
+    vs = [(d, dim_verdict(nt, nd, t, o), nt, nd, t, o) for d, nt, nd, t, o in dims]
+    rej = [(d, why, nt, nd, t, o) for d, (v, why), nt, nd, t, o in vs if v == "reject"]
+    if rej:
+        if any(why == "target_exceeded" for _, why, *_ in rej):
+            return "reject", "target_exceeded"
+        if any(d == "time" and c["trng"]["d"] == 2 for d, *_ in rej):
+            return "reject", "time_extent_2d_target"
+        if any(why == "result_beyond_frame" for _, why, *_ in rej):
+            return "reject", "result_beyond_frame"
+        if any((t[0] is None or t[1] is None or o[0] is None or o[1] is None) and nt != nd for _, _, nt, nd, t, o in rej):
+            return "reject", "open_component"
+        if all(_resolve(t, nt)[1] == _resolve(o, nd)[1] for _, _, nt, nd, t, o in rej):
+            return "reject", "starts_differ"            # equal stops, different starts
+        return "reject", "extent_differs"
+    if any(v == "dontcare" for _, (v, _), *_ in vs):
+        return "dontcare", None
+    cmp_dims = [x for x in vs if not (x[0] == "time" and c["trng"]["d"] == 2)]
+    if any(o[1] is None and nt != nd for _, _, nt, nd, t, o in cmp_dims):
+        return "accept", "open_component"      # an open result stop means the frame's size, not the target's
+    if any(t[1] is None or o[1] is None for _, _, _, _, t, o in cmp_dims):
+        return "accept", "absent_stop"
+    if any(_resolve(t, nt)[0] != _resolve(o, nd)[0] for _, _, nt, nd, t, o in cmp_dims):
+        return "accept", "starts_differ"
+    return "accept", "same_starts"
+
+
+def known_classes(c):
+    """still-open defect classes of the tree this case falls into (generator steering only): at most one per case, so
+    that the signature of a violation names one class.  Repaired classes (F6a-c, F20, chi-sub, t3d) mix freely."""
+    out = []
+    v, cls = py_verdict(c)
+    if v == "reject":
+        if cls in ("time_extent_2d_target", "result_beyond_frame", "open_component"):
+            out.append(cls)
+        return out
+    if v == "accept" and cls == "open_component" and not c["bypass"]:
+        out.append("open_component")
+    if fit_flags(c)["short_procs"]:
+        out.append("short_procs")
+    return out
+
+
+def pick_dim(r, nt, nd):
+    """a target range along one dimension: target data of size nt, simulated frame of size nd"""
+    lo, hi = min(nt, nd), max(nt, nd)
+    k = r.random()
+    if nt == nd:
+        if k < 0.38:
+            return (0, lo)
+        if k < 0.95:
+            return sub_range(r, lo)
+        return (r.randrange(0, lo), lo + r.randrange(1, 3))                 # beyond both
+    if k < 0.30:
+        return (0, lo)
+    if k < 0.58:
+        return sub_range(r, lo)
+    a = r.randrange(0, lo)
+    if k < 0.90:
+        return (a, r.randrange(lo + 1, hi + 1))       # beyond the smaller of the two arrays, inside the larger one
+    return (a, hi + r.randrange(1, 3))                # beyond both
+
+
+def other_size(r, n, lo=1):
+    return max(lo, n + r.choice([-2, -1, -1, 1, 1, 2]))
+
+
+def gen_fit_one(r, flagged_share):
+    rows, cols = r.randrange(1, 5), r.randrange(1, 5)
+    flag = None
+    if r.random() < flagged_share:
+        flag = r.choice(["t3d", "short_procs", "multi_weights", "chi_scalar_sub"])
+    multi = (flag in ("t3d", "multi_weights")) or (flag is None and r.random() < 0.3)
+    steps = r.randrange(2, 4) if multi else 1
+    # the target data read from file: the detector's frame size, or smaller / larger in some dimension
+    trows, tcols, tsteps = rows, cols, steps
+    shape_mode = "same"
+    if flag is None and r.random() < 0.45:
+        k = r.random()
+        if k < 0.4 or not multi:
+            which = r.choice(["row", "col", "both"])
+        else:
+            which = r.choice(["time", "time", "row", "col", "all"])
+        if which in ("row", "both", "all"):
+            trows = other_size(r, rows)
+        if which in ("col", "both", "all"):
+            tcols = other_size(r, cols)
+        if which in ("time", "all"):
+            tsteps = max(1, steps + r.choice([-1, 1]))
+        if (trows, tcols, tsteps) != (rows, cols, steps):
+            shape_mode = "differs"
+    pattern = [[None if r.random() < 0.04 else r.randrange(0, 10) for _ in range(cols)] for _ in range(rows)]
+    nt = r.choice([1, 2, 2, 3])
+    if flag == "short_procs":
+        nt = r.choice([2, 3])
+        offsets = None if r.random() < 0.6 else [r.randrange(0, 12) for _ in range(nt - 1)]
+        if offsets is not None and len(offsets) == 1:
+            offsets = None
+    else:
+        offsets = [r.randrange(0, 12) * r.choice([1, 1, 2]) for _ in range(nt)]
+        if nt == 1 and r.random() < 0.5:
+            offsets = None
+        elif r.random() < 0.1:
+            offsets.append(r.randrange(0, 12))          # one processor more than targets: ignored
+    targets = [[[[None if r.random() < 0.05 else r.randrange(0, 40) for _ in range(tcols)] for _ in range(trows)]
+                for _ in range(tsteps)] for _ in range(nt)]
+    ff = "chi" if flag == "chi_scalar_sub" else r.choice(["abs", "sq", "chi"])
+    free = r.randrange(0, 3)
+    if shape_mode == "same":
+        tr, tc = (sub_range(r, rows), sub_range(r, cols)) if r.random() < 0.9 else (pick_dim(r, rows, rows), pick_dim(r, cols, cols))
+    else:
+        tr, tc = pick_dim(r, trows, rows), pick_dim(r, tcols, cols)
+    if flag == "chi_scalar_sub":
+        if rows * cols == 1:
+            rows, cols = trows, tcols = 2, 2
+            pattern = [[1, 2], [3, 4]]
+            targets = [[[[5, 6], [7, 9]] for _ in range(steps)] for _ in range(nt)]
+        tr, tc = (0, rows), (0, cols)
+        if rows > 1:
+            tr = (1, rows)
+        else:
+            tc = (1, cols)
+    bypass = False
+    orow, ocol = tr, tc
+    rel = "same"
+    k = r.random()
+    if flag is None and k < 0.30:
+        # shifted result range of equal extent inside the simulated frame
+        def shift(s, n):
+            ext = s[1] - s[0]
+            if ext > n:
+                return s
+            a = r.randrange(0, n - ext + 1)
+            return (a, a + ext)
+        orow, ocol = shift(tr, rows), shift(tc, cols)
+        if (orow, ocol) != (tr, tc):
+            rel = "shifted"
+    elif flag is None and k < 0.36:
+        # same stop, another start: regions of different extent
+        def other_start(s):
+            cand = [a for a in range(0, s[1] + 1) if a != s[0]]
+            return (r.choice(cand), s[1]) if cand else s
+        if r.random() < 0.5:
+            orow = other_start(tr)
+        else:
+            ocol = other_start(tc)
+        rel = "same_stop"
+    elif flag is None and k < 0.40:
+        orow, ocol = sub_range(r, rows), sub_range(r, cols)       # unrelated result range
+        rel = "unrelated"
+    elif flag is None and k < 0.48:
+        # absent (open) components: nothing declared at all, or single end points left open
+        def opened(s, n_this):
+            q = r.random()
+            if q < 0.4:
+                return (None, None) if s == (0, n_this) or r.random() < 0.3 else s
+            if q < 0.6 and s[0] == 0:
+                return (None, s[1])
+            if q < 0.8 and s[1] == n_this:
+                return (s[0], None)
+            return s
+        if r.random() < 0.35:
+            tr = tc = orow = ocol = (None, None)
+        else:
+            tr, tc = opened(tr, trows), opened(tc, tcols)
+            orow, ocol = opened(orow, rows), opened(ocol, cols)
+        rel = "open"
+    q = r.random()
+    if not multi:
+        otime = (None, None) if q < 0.6 else (0, 1)
+    elif q < 0.5:
+        otime = (None, None)
+    elif q < 0.85 or flag is not None:
+        otime = (0, steps)
+    else:
+        otime = sub_range(r, steps)
+    if multi and (flag == "t3d" or (flag is None and r.random() < 0.35)):
+        # 6-value target range on a time-domain target
+        tm = (0, steps) if (flag == "t3d" and r.random() < 0.4) else pick_dim(r, tsteps, steps)
+        otime = tm
+        q = r.random()
+        if q < 0.3 and tm[1] - tm[0] <= steps:
+            a = r.randrange(0, steps - (tm[1] - tm[0]) + 1)
+            otime = (a, a + tm[1] - tm[0])                    # shifted in time, equal extent
+        elif q < 0.4:
+            tm, otime = ((None, None), (None, None)) if tm == (0, tsteps) else ((tm[0], None) if tm[1] == tsteps else tm, otime)
+        elif q < 0.45:
+            otime = sub_range(r, steps)
+        trng = rng3(tm, tr, tc)
+    elif not multi and flag is None and r.random() < 0.03:
+        trng = rng3((0, 1), tr, tc)        # 3-D range on 2-D target data: "not a 3 dimensional array" (not judged)
+    else:
+        trng = rng2(tr, tc)
+    orng = rng3(otime, orow, ocol)
+    weights = None
+    k = r.random()
+    wpool = ([1, 2, 4, Fraction(1, 2)] if ff == "chi" else [1, 2, 3, 4, Fraction(1, 2), 0, -1])
+    if flag in ("multi_weights", "chi_scalar_sub") or k < 0.4:
+        if flag == "chi_scalar_sub" or r.random() < 0.65:
+            weights = dict(scalar=[r.choice(wpool) for _ in range(nt)])
+            if flag == "multi_weights" and all(w == 1 for w in weights["scalar"]):
+                weights["scalar"][0] = 3
+            if flag is None and r.random() < 0.08 and nt > 1:
+                weights["scalar"].pop()          # too few weights: IndexError expected
+        else:
+            weights = dict(file=[[[[r.choice(wpool) for _ in range(tcols)] for _ in range(trows)]
+                                  for _ in range(tsteps)] for _ in range(nt)])
+            if flag == "multi_weights":
+                weights["file"][0][0][0][0] = 5
+    gain = r.choice([0, 1, 2, 3, Fraction(1, 2), Fraction(3, 2)])
+    bias = r.choice([0, 0, 1, -2, Fraction(1, 4)])
+    c = dict(kind="fit", ff=ff, free=free, multi=multi, steps=steps, pattern=pattern, offsets=offsets,
+             targets=targets, trng=trng, orng=orng, weights=weights, gain=gain, bias=bias,
+             bypass=False, flag=flag, rel=rel)
+    # the slicing alone (checker switched off from outside) for a share of the shifted ranges, and only for
+    # configurations the specification accepts
+    if rel == "shifted" and py_verdict(c)[0] == "accept" and r.random() < 0.3:
+        c["bypass"] = True
+    return c
+
+
+def gen_fit_sizes(r, quick=True):
+    """Systematic stream: target data smaller / larger than the simulated frame in each dimension (rows, columns and,
+    for time-domain targets, readout times), with fit ranges that run past the target but not the frame, past the
+    frame but not the target, past both, or past neither.  Plain configurations otherwise (no weights, one target)."""
+    cases = []
+    for multi in (False, True):
+        dims = ["row", "col"] + (["time"] if multi else [])
+        for dim in dims:
+            for smaller in (True, False):
+                for beyond in ("smaller_only", "inside", "both") if quick else ("smaller_only", "smaller_only", "inside", "both"):
+                    rows, cols = r.randrange(2, 5), r.randrange(2, 5)
+                    steps = r.randrange(2, 4) if multi else 1
+                    d = r.choice([1, 1, 2])
+                    size = dict(row=rows, col=cols, time=steps)
+                    tsize = dict(size)
+                    tsize[dim] = max(1, size[dim] - d) if smaller else size[dim] + d
+                    if tsize[dim] == size[dim]:
+                        tsize[dim] += 1
+                    lo, hi = sorted((size[dim], tsize[dim]))
+                    a = r.randrange(0, lo)
+                    stop = dict(smaller_only=r.randrange(lo + 1, hi + 1), inside=r.randrange(a + 1, lo + 1),
+                                both=hi + r.randrange(1, 3))[beyond]
+                    rng = dict(row=sub_range(r, min(rows, tsize["row"])), col=sub_range(r, min(cols, tsize["col"])),
+                               time=(0, min(steps, tsize["time"])))
+                    rng[dim] = (a, stop)
+                    pattern = [[r.randrange(0, 10) for _ in range(cols)] for _ in range(rows)]
+                    targets = [[[[r.randrange(0, 40) for _ in range(tsize["col"])] for _ in range(tsize["row"])]
+                                for _ in range(tsize["time"])]]
+                    three = False
+                    if dim == "time":
+                        otime = rng["time"]
+                        three = beyond != "inside" or r.random() < 0.5    # else a 2-D target range: time axis taken whole
+                    elif multi and r.random() < 0.3:
+                        otime, three = rng["time"], True
+                    else:
+                        otime = (None, None) if r.random() < 0.5 else (0, steps)
+                    trng = rng3(rng["time"], rng["row"], rng["col"]) if three else rng2(rng["row"], rng["col"])
+                    c = dict(kind="fit", ff=r.choice(["abs", "sq"]), free=0, multi=multi, steps=steps, pattern=pattern,
+                             offsets=None if r.random() < 0.5 else [r.randrange(0, 6)], targets=targets,
+                             trng=trng, orng=rng3(otime, rng["row"], rng["col"]), weights=None,
+                             gain=r.choice([1, 2]), bias=r.choice([0, 1]), bypass=False, flag=None, rel="sizes")
+                    cases.append(c)
+    return cases
+
+
+CORPUS = core.VERIF / "harness" / "corpus" / "C11"
+
+
+def load_corpus():
+    """minimised inputs of past misses / repaired defects (run first; plain `fit` cases)"""
+    out = []
+    if CORPUS.is_dir():
+        for f in sorted(CORPUS.glob("*.json")):
+            for c in json.loads(f.read_text())["cases"]:
+                c = dict(c, flag=None, rel="corpus")
+                c["gain"], c["bias"] = Fraction(c["gain"]), Fraction(c["bias"])
+                out.append(c)
+    return out
+
+
 def gen_fit(r, count, flagged_share=0.25):
     cases = []
-    for i in range(count):
-        rows, cols = r.randrange(1, 5), r.randrange(1, 5)
-        flag = None
-        if r.random() < flagged_share:
-            flag = r.choice(["t3d", "short_procs", "multi_weights", "chi_scalar_sub"])
-        multi = (flag in ("t3d", "multi_weights")) or (flag is None and r.random() < 0.3)
-        steps = r.randrange(2, 4) if multi else 1
-        pattern = [[None if r.random() < 0.04 else r.randrange(0, 10) for _ in range(cols)] for _ in range(rows)]
-        nt = r.choice([1, 2, 2, 3])
-        if flag == "short_procs":
-            nt = r.choice([2, 3])
-            offsets = None if r.random() < 0.6 else [r.randrange(0, 12) for _ in range(nt - 1)]
-            if offsets is not None and len(offsets) == 1:
-                offsets = None
-        else:
-            offsets = [r.randrange(0, 12) * r.choice([1, 1, 2]) for _ in range(nt)]
-            if nt == 1 and r.random() < 0.5:
-                offsets = None
-            elif r.random() < 0.1:
-                offsets.append(r.randrange(0, 12))          # one processor more than targets: ignored
-        targets = [[[[None if r.random() < 0.05 else r.randrange(0, 40) for _ in range(cols)] for _ in range(rows)]
-                    for _ in range(steps)] for _ in range(nt)]
-        ff = "chi" if flag == "chi_scalar_sub" else r.choice(["abs", "sq", "chi"])
-        free = r.randrange(0, 3)
-        tr, tc = sub_range(r, rows), sub_range(r, cols)
-        if flag == "chi_scalar_sub":
-            if rows * cols == 1:
-                rows, cols = 2, 2
-                pattern = [[1, 2], [3, 4]]
-                targets = [[[[5, 6], [7, 9]] for _ in range(steps)] for _ in range(nt)]
-            tr, tc = (0, rows), (0, cols)
-            if rows > 1:
-                tr = (1, rows)
-            else:
-                tc = (1, cols)
-        bypass = False
-        orow, ocol = tr, tc
-        if flag is None and r.random() < 0.35:
-            # shifted result range of equal extent (only reachable with the checker bypassed)
-            ext = tr[1] - tr[0]
-            a = r.randrange(0, rows - ext + 1)
-            orow = (a, a + ext)
-            ext = tc[1] - tc[0]
-            a = r.randrange(0, cols - ext + 1)
-            ocol = (a, a + ext)
-            bypass = (orow, ocol) != (tr, tc)
-        otime = (None, None) if r.random() < 0.6 else (0, steps)
-        if flag == "t3d":
-            trng = rng3((0, steps), tr, tc)
-            otime = (0, steps)
-        else:
-            trng = rng2(tr, tc)
-        orng = rng3(otime, orow, ocol)
-        weights = None
-        k = r.random()
-        wpool = ([1, 2, 4, Fraction(1, 2)] if ff == "chi" else [1, 2, 3, 4, Fraction(1, 2), 0, -1])
-        if flag in ("multi_weights", "chi_scalar_sub") or k < 0.4:
-            if flag == "chi_scalar_sub" or r.random() < 0.65:
-                weights = dict(scalar=[r.choice(wpool) for _ in range(nt)])
-                if flag == "multi_weights" and all(w == 1 for w in weights["scalar"]):
-                    weights["scalar"][0] = 3
-                if flag is None and r.random() < 0.08 and nt > 1:
-                    weights["scalar"].pop()          # too few weights: IndexError expected
-            else:
-                weights = dict(file=[[[[r.choice(wpool) for _ in range(cols)] for _ in range(rows)]
-                                      for _ in range(steps)] for _ in range(nt)])
-                if flag == "multi_weights":
-                    weights["file"][0][0][0][0] = 5
-        if not multi and ff == "chi" and weights and "scalar" in weights and (tr, tc) != ((0, rows), (0, cols)):
-            flag = flag or "chi_scalar_sub"
-        if multi and weights and flag is None:
-            flag = "multi_weights"
-        gain = r.choice([0, 1, 2, 3, Fraction(1, 2), Fraction(3, 2)])
-        bias = r.choice([0, 0, 1, -2, Fraction(1, 4)])
-        c = dict(kind="fit", ff=ff, free=free, multi=multi, steps=steps, pattern=pattern, offsets=offsets,
-                 targets=targets, trng=trng, orng=orng, weights=weights, gain=gain, bias=bias,
-                 bypass=bypass, flag=flag)
-        fl = fit_flags(c)
-        if sum(1 for k in ("short_procs", "multi_weights", "chi_scalar_sub") if fl[k]) > 1:
+    while len(cases) < count:
+        c = gen_fit_one(r, flagged_share)
+        kc = known_classes(c)
+        if len(kc) > 1 and c["weights"] is not None:
             c["weights"] = None          # keep known defect classes apart: at most one per case
+            kc = known_classes(c)
+        if len(kc) > 1:
+            continue
         cases.append(c)
     return cases
 
@@ -384,13 +641,17 @@ def emit_fit(pairs):
         f"{{| ft_c := {c_fconf(c)};\n     ft_sims := {core.clist(c_frame3(f) for f in sim_frames(c))};\n"
         f"     ft_obs := {c_obs(o)} |}}" for c, o in pairs)
     return (HEAD + f"Definition cases : list fit_case := [\n  {body}\n].\n"
-            "Eval vm_compute in fit_mismatches src_checker cases.\nEval vm_compute in fit_violations cases.\n")
+            "Eval vm_compute in fit_mismatches src_checker src_calls src_weights cases.\nEval vm_compute in fit_violations cases.\n")
 
 
 def fit_flags(c):
     rows, cols = len(c["pattern"]), len(c["pattern"][0])
     nproc = len(c["offsets"]) if c["offsets"] is not None else 1
-    sub = (tuple(c["trng"]["row"]), tuple(c["trng"]["col"])) != ((0, rows), (0, cols))
+    _, ty, tx = tshape_of(c)
+    r0, r1 = _resolve(c["trng"]["row"], ty)
+    c0, c1 = _resolve(c["trng"]["col"], tx)
+    # the restricted target does not have the detector's frame shape
+    sub = (min(r1, ty) - min(r0, ty), min(c1, tx) - min(c0, tx)) != (rows, cols)
     return dict(
         t3d=c["trng"]["d"] == 3,
         short_procs=nproc < len(c["targets"]),
@@ -399,25 +660,46 @@ def fit_flags(c):
     )
 
 
+def fit_sig(c, o):
+    """names the input class of a case Coq judged to violate the specification"""
+    v, cls = py_verdict(c)
+    if v == "reject":
+        return dict(clause="range_rejected", cls=cls)
+    if o.get("o") == "ctor":
+        t3d = c["trng"]["d"] == 3
+        return dict(clause="range_accepted", cls="t3d" if t3d else cls, t3d=t3d)
+    return dict(clause="fitness_value", **fit_flags(c))
+
+
 def fit_violation(c, o) -> Violation:
-    fl = fit_flags(c)
-    sig = dict(clause="fitness_value", **fl)
-    case = jsonable({k: v for k, v in c.items() if k != "flag"})
+    sig = fit_sig(c, o)
+    case = jsonable({k: v for k, v in c.items() if k not in ("flag", "rel")})
+    desc = (f"ff={c['ff']}, multi={c['multi']}, targets={len(c['targets'])} of shape {tshape_of(c)}, simulated frame "
+            f"{dshape_of(c)}, offsets={c['offsets']}, weights={'yes' if c['weights'] else 'no'}, trng={c['trng']}, "
+            f"orng={c['orng']}")
+    if sig["clause"] == "range_rejected":
+        return Violation(clause="range_rejected", case=case, observed=o,
+                         expected="the constructor refuses the fit ranges (ValueError) before anything is optimised",
+                         what=f"fit ranges that {'exceed the size of the target data' if sig['cls'] == 'target_exceeded' else 'select regions of different extent in result and target'} "
+                              f"are accepted ({sig['cls']}; {desc}): implementation {o}", sig=sig)
+    if sig["clause"] == "range_accepted":
+        return Violation(clause="range_accepted", case=case, observed=o,
+                         expected="accepted; fitness = sum over all targets of f(result[result range], target[target range], weight_k)",
+                         what=f"fit ranges of equal extent inside the target are refused at construction ({sig['cls']}; {desc}): "
+                              f"implementation {o}", sig=sig)
     return Violation(clause="fitness_value", case=case, observed=o,
                      expected="sum over all targets of f(result[result range], target[target range], weight_k)",
-                     what=f"problem.fitness differs from the declared figure of merit (ff={c['ff']}, multi={c['multi']}, "
-                          f"targets={len(c['targets'])}, offsets={c['offsets']}, weights={'yes' if c['weights'] else 'no'}, "
-                          f"trng={c['trng']}, orng={c['orng']}): implementation {o}", sig=sig)
+                     what=f"problem.fitness differs from the declared figure of merit ({desc}): implementation {o}", sig=sig)
 
 
 # ------------------------------------------------------------------------------------------ calibration runs
 
 
-def gen_calib(r, count, with_single):
+def gen_calib(r, count, with_single, quick=False):
     cases = []
     for i in range(count):
         rows, cols = r.randrange(2, 4), r.randrange(2, 4)
-        multi = i % 3 == 2
+        multi = i % 3 == 2 or (quick and i == 1)
         steps = 2 if multi else 1
         nt = r.choice([1, 2])
         pattern = [[r.randrange(1, 9) for _ in range(cols)] for _ in range(rows)]
@@ -426,10 +708,16 @@ def gen_calib(r, count, with_single):
         targets = [[[[g * v * (t + 1) + (offsets[k] if offsets else 0) + b + r.randrange(-1, 2) for v in row]
                      for row in pattern] for t in range(steps)] for k in range(nt)]
         tr, tc = sub_range(r, rows), sub_range(r, cols)
-        weights = dict(scalar=[r.choice([1, 2, 3]) for _ in range(nt)]) if (not multi and r.random() < 0.5) else None
+        orow, ocol = tr, tc
+        if i % 4 == 3 and tr[1] - tr[0] < rows:
+            a = r.choice([a for a in range(0, rows - (tr[1] - tr[0]) + 1) if a != tr[0]])
+            orow = (a, a + tr[1] - tr[0])              # shifted result range of equal extent
+        if i % 5 == 4:
+            tr = orow = (None, None) if tr == (0, rows) else (tr[0], None) if tr[1] == rows else tr   # open components
+        weights = dict(scalar=[r.choice([1, 2, 3]) for _ in range(nt)]) if (i % 2 == 0 and r.random() < 0.7) else None
         cases.append(dict(kind="calib", ff=r.choice(["abs", "sq"]), free=0, multi=multi, steps=steps, pattern=pattern,
                           offsets=offsets, targets=targets, trng=rng2(tr, tc),
-                          orng=rng3((0, steps) if (multi and i % 2 == 0) else (None, None), tr, tc),
+                          orng=rng3((0, steps) if (multi and i % 2 == 0) else (None, None), orow, ocol),
                           weights=weights, bypass=False, seed=r.randrange(1, 10000), islands=2, pop=7, generations=2,
                           evolutions=r.choice([3, 4, 5]), num_best=r.choice([None, 3])))
     if with_single:
@@ -524,7 +812,7 @@ def leg_ff(ctx, cases, tag="ff"):
 
 
 def leg_fit(ctx, cases, tag="fit"):
-    pairs, mism, viol = run_kind(ctx, cases, lambda c: jsonable({k: v for k, v in c.items() if k != "flag"}),
+    pairs, mism, viol = run_kind(ctx, cases, lambda c: jsonable({k: v for k, v in c.items() if k not in ("flag", "rel")}),
                                  emit_fit, tag, 40, workers=6)
     for c, o in pairs:
         ctx.count("evaluations")
@@ -537,13 +825,18 @@ def leg_fit(ctx, cases, tag="fit"):
         ctx.dist("fit_ranges", "bypass-shifted" if c["bypass"] else
                  ("full" if fit_flags(c) and (tuple(c["trng"]["row"]), tuple(c["trng"]["col"])) ==
                   ((0, len(c["pattern"])), (0, len(c["pattern"][0]))) else "sub"))
+        (tt, ty, tx), (dt, dy, dx) = tshape_of(c), dshape_of(c)
+        ctx.dist("fit_target_vs_frame", "same" if (tt, ty, tx) == (dt, dy, dx) else
+                 "+".join(f"{n}{'<' if a < b else '>'}" for n, a, b in (("t", tt, dt), ("y", ty, dy), ("x", tx, dx)) if a != b))
+        v, cls = py_verdict(c)
+        ctx.dist("fit_spec_verdict", f"{v}:{cls}" if cls else v)
     for c, o in mism:
         ctx.broken.append(Broken("correspondence", "Model/Fitness.v model_fit vs ModelFittingDataTree.fitness",
                                  f"model and implementation differ: {o} on {jsonable(c)}"[:1500],
                                  dict(case=jsonable(c), observed=o)))
     best = {}
     for c, o in viol:
-        key = json.dumps(fit_flags(c), sort_keys=True)
+        key = json.dumps(fit_sig(c, o), sort_keys=True)
         size = len(json.dumps(jsonable(c)))
         if key not in best or size < best[key][2]:
             best[key] = (c, o, size)
@@ -562,6 +855,19 @@ def leg_calib(ctx, cases):
             ctx.broken.append(Broken("correspondence", "calibration driver failed", str(o)[:800], jc))
             continue
         ctx.count("calibration_runs")
+        if o["o"] == "ctor":
+            # every generated calibration declares ranges of equal extent inside target and frame
+            v, cls = py_verdict(c)
+            if v == "accept":
+                ctx.violations.append(Violation(
+                    clause="range_accepted", case=jc, observed=o,
+                    expected="the problem is constructed and the calibration runs",
+                    what=f"fit ranges of equal extent inside the target are refused at construction ({cls}; trng={c['trng']}, "
+                         f"orng={c['orng']}): {o['cls']}: {o['msg'][:120]}",
+                    sig=dict(clause="range_accepted", cls=cls, t3d=False)))
+            else:
+                ctx.broken.append(Broken("correspondence", "calibration case not constructible", str(o)[:800], jc))
+            continue
         if o["o"] == "evolve_raise":
             if c.get("single_param"):
                 ctx.violations.append(Violation(
@@ -619,6 +925,26 @@ def leg_calib(ctx, cases):
     ctx.cov["champion_islands_checked"] = len(rows)
 
 
+CLAUSE_ORDER = ["checker_sound", "checker_complete", "fitness_value", "champion", "resimulation", "range_rejected",
+                "range_accepted"]
+
+
+def order_violations(ctx: Ctx):
+    """core.finish reports the first five distinct input classes: put one class of every clause first (round-robin
+    over the clauses, the constructor-level duplicates of checker classes last) so that distinct defects are all shown"""
+    seen, ranked = {}, []
+    for i, v in enumerate(ctx.violations):
+        key = json.dumps(v.sig, sort_keys=True) + v.clause
+        per = seen.setdefault(v.clause, [])
+        if key not in per:
+            per.append(key)
+        late = 10 if v.clause.startswith("range_") and v.sig.get("cls") in ("starts_differ", "absent_stop") else 0
+        ci = CLAUSE_ORDER.index(v.clause) if v.clause in CLAUSE_ORDER else len(CLAUSE_ORDER)
+        ranked.append((per.index(key) + late, ci, i, v))
+    ranked.sort(key=lambda x: x[:3])
+    ctx.violations[:] = [x[3] for x in ranked]
+
+
 def new_violations(ctx: Ctx):
     fs = core.load_findings(ctx.prop)
     return [v for v in ctx.violations if not any(core.finding_matches(e, v) for e in fs)]
@@ -630,7 +956,11 @@ def run(ctx: Ctx):
     ctx.trusted += TRUSTED
     ctx.assumptions += [
         "range checker theorems: declared numbers are ordered and non-negative (in_domain); the result range is a "
-        "FitRange3D (what Calibration always builds); open result components are resolved against the target's shape",
+        "FitRange3D (what Calibration always builds); check_fit_ranges resolves open result components against the target's "
+        "size (the only size it is given)",
+        "C11_model_meets_spec_partial: no target without a processor (C11-zip), result range inside the simulated frame and "
+        "open result stops meaning the target's size (C11-F6d), 2-D target range selecting as many readout times as the "
+        "target has (C11-F6e); rectangular arrays without an empty axis",
         "fitness correspondence: integer / dyadic frames (float arithmetic exact); reduced chi squared compared up to "
         "one rounding of the final division (2^-52 relative); the simulated frames come from the probe model "
         "verif_probes_c11.pattern whose formula the harness recomputes independently",
@@ -660,12 +990,14 @@ def run(ctx: Ctx):
     ff_cases = gen_ff(ctx.rng("ff"), ctx.budget(300, 1500))
     leg_ff(ctx, ff_cases)
     ctx.log(f"fitness-function leg done t={__import__('time').time() - ctx.t0:.0f}s")
-    fit_cases = gen_fit(ctx.rng("fit"), ctx.budget(72, 480))
+    fit_cases = load_corpus()
+    ctx.cov["corpus_cases"] = len(fit_cases)
+    fit_cases += gen_fit_sizes(ctx.rng("fitsizes"), ctx.quick) + gen_fit(ctx.rng("fit"), ctx.budget(72, 480))
     fit_pairs, _, _ = leg_fit(ctx, fit_cases)
     ctx.log(f"problem.fitness leg done ({len(fit_pairs)} cases) t={__import__('time').time() - ctx.t0:.0f}s")
 
     # 3. real calibrations
-    calib_cases = gen_calib(ctx.rng("calib"), ctx.budget(2, 9), with_single=not ctx.quick)
+    calib_cases = gen_calib(ctx.rng("calib"), ctx.budget(2, 10), with_single=True, quick=ctx.quick)
     leg_calib(ctx, calib_cases)
     ctx.log(f"calibration leg done t={__import__('time').time() - ctx.t0:.0f}s")
 
@@ -685,6 +1017,7 @@ def run(ctx: Ctx):
         ctx.sample(dict(checker=c, observed=o))
     if ctx.broken and not new_violations(ctx):
         search(ctx)
+    order_violations(ctx)
 
 
 def search(ctx: Ctx):
@@ -693,7 +1026,8 @@ def search(ctx: Ctx):
     r = ctx.rng("search")
     leg_ck(ctx, ck_exhaustive([1, 2, 3]) + ck_random(r, 3000, malformed=False), tag="sck")
     if not new_violations(ctx):
-        leg_fit(ctx, gen_fit(ctx.rng("sfit"), 240, flagged_share=0.1), tag="sfit")
+        leg_fit(ctx, gen_fit_sizes(ctx.rng("sfitsizes"), quick=False) + gen_fit(ctx.rng("sfit"), 240, flagged_share=0.1),
+                tag="sfit")
     ctx.cov["search"] = True
 
 
@@ -746,24 +1080,31 @@ def replay(ctx: Ctx, rp: dict) -> int:
 
 META = dict(
     level_text=(
-        "Coq theorems (closed under the global context) over (1) the comparisons of the fit-range checker regenerated from "
-        "calibration/util.py on every run: the full soundness/completeness statements (accepted <=> equal extents inside the "
-        "target) are REFUTED with proved witnesses (end points compared instead of extents; absent ranges crash) and the "
-        "strongest true restriction (all stops given, equal starts) is proved for all ranges and sizes; (2) the accumulation "
-        "loop of ModelFittingDataTree.fitness: by induction over the pair list it is the declared sum over all "
-        "(processor, target) pairs with weight k in term k whenever no target is left without a processor (the general "
-        "statement is refuted: zip drops targets), and the single-readout term is the declared term; dropped weights for "
-        "multi-readout targets are a proved witness; (3) champion tracking min(previous, best of the evolution) is "
-        "non-increasing, a lower bound of everything met, and an actually computed value (induction over evolutions). "
-        "The model is tied to the code by evaluating it inside Coq against the real check_fit_ranges (exhaustive per "
-        "dimension for small sizes), the three real fitness functions, problem.fitness(x) on integer-valued probe frames "
-        "(exact), and real tiny calibrations (/champion/fitness non-increasing, last value = problem.fitness(champion) = "
-        "independent numpy recomputation); the implementation's outputs are judged inside Coq against the specification."),
+        "Coq theorems (closed under the global context) over tables regenerated from the source on every run: (1) the "
+        "comparisons of the fit-range checker (calibration/util.py): for all ranges, sizes and readout counts in the domain "
+        "(ordered non-negative numbers, absent components allowed) check_fit_ranges accepts EXACTLY the pairs of equal extent "
+        "with the target range inside the target (C11_checker_sound / _complete / _decides); (2) the sizes the constructor "
+        "passes to it (fitting_datatree.py call sites = sizes of the target data): a target range accepted at construction "
+        "lies inside the target data, so no problem object exists for a range exceeding the target "
+        "(C11_ctor_rejects_exceeding, C11_exceeding_never_optimised); (3) the problem object: whenever problem.fitness "
+        "yields anything it is the declared sum over all (processor, target) pairs of the configured function on "
+        "result[result range], target[target range] with weight k, for 2-D and 3-D target ranges, single- and multi-readout "
+        "targets, no/scalar/file weights (C11_fitness_is_declared, by induction over the pair list; needs #targets <= "
+        "#processors: zip drops targets, refuted in general); (4) the model MEETS the specification used to judge the "
+        "implementation outside the input classes of the three open findings (C11_model_meets_spec_partial; the full "
+        "statement is refuted with witnesses for F6d, F6e, zip); (5) champion tracking min(previous, best of the evolution) "
+        "is non-increasing, a lower bound of everything met and an actually computed value. The model is tied to the code "
+        "by evaluating it inside Coq against the real check_fit_ranges (exhaustive per dimension for small sizes), the "
+        "three real fitness functions, problem.fitness(x) on integer-valued probe frames (exact; targets smaller/larger "
+        "than the frame in rows, columns and readout times) and real tiny calibrations (/champion/fitness non-increasing, "
+        "last value = problem.fitness(champion) = independent numpy recomputation); the implementation's outputs are "
+        "judged inside Coq against the specification."),
     level_note=(
         "Proved for all inputs: statements about the Gallina model. Established by correspondence (= testing): that the "
-        "model's checker/fitness/pairing/weights behave like the Python on the generated cases; pygmo's champion tracking "
-        "and the re-simulation are observed on real runs only. Trusted: Coq kernel + vm_compute, translator/c11.py, the "
-        "harness and driver, numpy/numba/xarray semantics on exact inputs. Seeding of calibration (C04/F1) is not covered."),
-    technique="Coq proof over generated range-checker table + inductive sum/champion theorems + in-Coq correspondence/spec evaluation",
+        "model's checker/constructor/fitness/pairing/weights behave like the Python on the generated cases; pygmo's "
+        "champion tracking and the re-simulation are observed on real runs only (the returned /simulated data cannot be "
+        "computed at all: C11-resim). Trusted: Coq kernel + vm_compute, translator/c11.py, the harness and driver, "
+        "numpy/numba/xarray semantics on exact inputs. Seeding of calibration (C04/F1) is not covered."),
+    technique="Coq proof over generated checker / call-site / weights tables + inductive sum/champion theorems + in-Coq correspondence/spec evaluation",
     design_ref="DESIGN.md section 6, C11",
 )
